@@ -706,6 +706,29 @@ def ancillary_part(rep):
                                 witness=f"{mk}:round{rnd}",
                                 detail=f"ancillary keys of {mk} are {got}, "
                                 f"expected {want}", case=case, kind="anc"))
+                # documented names and units of the fit parameters (an
+                # ancillary with the same key has a label of its own)
+                md = logic.models_available["vk_anc"]
+                for k_, nm_, un_ in zip(md.parameter_keys,
+                                        M.parameter_names,
+                                        M.parameter_units):
+                    got = (md.get_parm_name(k_), md.get_parm_unit(k_),
+                           nm.get_parm_name("vk_anc", k_),
+                           nm.get_parm_unit("vk_anc", k_))
+                    if got != (nm_, un_, nm_, un_):
+                        rep.violate(V(
+                            PROP, "defaults", site="parameter-names",
+                            witness=f"{k_}:anc={pk}",
+                            detail=f"name/unit of fit parameter {k_} are "
+                            f"{got}, the module documents {(nm_, un_)} "
+                            f"(ancillary key {pk})", case=case, kind="anc"))
+                if pk not in md.parameter_keys and (
+                        md.get_parm_name(pk), md.get_parm_unit(pk)) != (
+                        "anc " + pk, "u"):
+                    rep.violate(V(PROP, "defaults", site="parameter-names",
+                                  witness=f"anc-label:{pk}", detail="label of "
+                                  "the ancillary-only key", case=case,
+                                  kind="anc"))
                 anc = c.get_ancillary_parameters(model_key="vk_anc")
                 if list(anc.keys()) != ["max_indent", pk]:
                     rep.violate(V(PROP, "defaults", site="ancillaries",
